@@ -592,6 +592,9 @@ func runC09(r *core.Run) {
 	}
 	for i := 0; i < ntasks; i++ {
 		if res.Panics[i] != "" {
+			if !core.PanicInLibrary(res.Panics[i]) {
+				core.Harness("panic in harness code inside simulated goroutine %d: %s", i, res.Panics[i])
+			}
 			r.Fail("panic", "task-panic:"+firstLineOf(res.Panics[i]), "simulated goroutine %d panicked outside an operation: %s", i, res.Panics[i])
 			return
 		}
